@@ -86,3 +86,12 @@ def shim_env(log, roots, plan_str=None, ficlone=False):
     if ficlone:
         e["FCV_FICLONE"] = "emulate"
     return e
+
+
+def mutated_paths(e):
+    """Paths whose entry or content a (successful) mutating event changes."""
+    if e.op in ("copy_file_range", "sendfile", "ficlone", "symlink"):
+        return [e.p1]
+    if e.op in ("rename", "link"):
+        return [p for p in (e.p1, e.p2) if p]
+    return [e.p1]
